@@ -225,6 +225,11 @@ func merge(child *lib.Result, race bool) {
 			}
 		}
 	}
+	for k, v := range child.Extra { // time spent in each late targeted scenario
+		if strings.HasPrefix(k, "t_") && !strings.HasPrefix(k, "t_solo") && !strings.HasPrefix(k, "t_clones") && !strings.HasPrefix(k, "t_api") {
+			addF(pre+k, v)
+		}
+	}
 }
 
 const maxDeaths = 6
